@@ -80,6 +80,8 @@ def _verbatim(ck, fx):
                     if val[2] != (want,) or pieces.replace("{}", "", 1).strip() != "" or pieces.count("{}") != 1:
                         why = "the result is formatted as %r over %s" % (pieces, [fmt_term(a)[:60] for a in val[2]])
                         break
+                elif val[:2] == ("app", "concat_str") and val[2][:1] == (want,) and all(x[0] == "lit" and isinstance(x[1], str) and x[1].strip() == "" for x in val[2][1:]):
+                    pass        # the crate's text with trailing white space appended (`text.push('\n')`)
                 elif val != want:
                     why = "the result is %s, not the crate's own result" % fmt_term(val)[:160]
                     break
